@@ -193,10 +193,113 @@ Definition gff_row (seqid biotype name : str) (strand : option str) (attrs : opt
      r_strand := strand; r_attrs := attrs; r_on_aln := None;
      r_spans := s; r_start := spans_min s; r_stop := spans_max s |}.
 
+(** ---------- GenBank: location expression -> spans, strand ---------- *)
+(** [parse_location_line] + [Location.start/stop] + [LocationList.get_coordinates/strand]:
+    a segment [a..b] (the [<]/[>] markers are dropped by [parse_simple_location_segment])
+    or a single base [a]; [join(...)] splices its children, [complement(...)]
+    reverses them and flips their strand *)
+Inductive loc :=
+| LSeg (a b : Z)
+| LPoint (a : Z)
+| LJoin (l : list loc)
+| LCompl (l : list loc).
+
+(** (start, last base, strand), 0-based, last base inclusive as [Location.stop] *)
+Fixpoint loc_flat (x : loc) : list (Z * Z * Z) :=
+  match x with
+  | LSeg a b => [(a - 1, b - 1, 1)]
+  | LPoint a => [(a - 1, a - 1, 1)]
+  | LJoin l => (fix go (l : list loc) := match l with [] => [] | y :: t => loc_flat y ++ go t end) l
+  | LCompl l =>
+      map (fun p => (fst (fst p), snd (fst p), - snd p))
+          (rev ((fix go (l : list loc) := match l with [] => [] | y :: t => loc_flat y ++ go t end) l))
+  end.
+
+(** [get_coordinates]: sorted (start, stop + 1) *)
+Definition loc_spans (x : loc) : list (Z * Z) :=
+  sort_spans (map (fun p => (fst (fst p), snd (fst p) + 1)) (loc_flat x)).
+
+(** [LocationList.strand] then [add_records]: 1 -> "+", -1 -> "-", both (0) -> column left NULL *)
+Definition loc_strand (x : loc) : option str :=
+  match map snd (loc_flat x) with
+  | [] => None
+  | s :: t => if forallb (fun y => y =? s) t then (if s =? -1 then Some [45] else Some [43]) else None
+  end.
+
+(** GenbankAnnotationDb.add_records *)
+Definition gb_row (seqid biotype name : str) (x : loc) : row :=
+  let s := loc_spans x in
+  {| r_table := 0; r_seqid := Some seqid; r_biotype := Some biotype; r_name := Some name;
+     r_strand := loc_strand x; r_attrs := None; r_on_aln := None;
+     r_spans := s; r_start := spans_min s; r_stop := spans_max s |}.
+
 (** ---------- history operations on whole databases ---------- *)
 (** [_update_db_from_other_db]: every table of [other] is appended to the same table of self *)
 Definition db_update (self other : list row) : list row := self ++ other.
 Definition db_union (a b : list row) : list row := db_update (db_update [] a) b.
+
+(** the same, table by table as the loop [for tname in other_db.table_names] does it:
+    [otables] are the tables of the class of [other] *)
+Definition db_update_tw (otables : list Z) (self other : list row) : list row :=
+  self ++ flat_map (fun t => rows_of t other) otables.
+(** [union]: a new instance of the class with the larger table set, updated from self, then from other *)
+Definition db_union_tw (stables otables : list Z) (a b : list row) : list row :=
+  db_update_tw otables (db_update_tw stables [] a) b.
+
+(** [to_rich_dict]: for each table (in [table_names] order) the list of its records;
+    [from_dict] / [_update_db_from_rich_dict] insert them back table by table *)
+Definition to_rich (tables : list Z) (db : list row) : list (Z * list row) :=
+  map (fun t => (t, rows_of t db)) tables.
+Definition from_rich (d : list (Z * list row)) : list row := flat_map snd d.
+
+(** ---------- count_distinct ---------- *)
+(** each of seqid / biotype / name is False (ignored), True (a GROUP BY column)
+    or a string (a WHERE constraint, [=] or [LIKE] as in [_matching_conditions]) *)
+Inductive cdarg := CDoff | CDcol | CDval (s : str).
+
+Definition cd_constraint (a : cdarg) : option str := match a with CDval s => Some s | _ => None end.
+Definition cd_proj (a : cdarg) (v : option str) : option (option str) :=
+  match a with CDcol => Some v | _ => None end.
+Definition is_col (a : cdarg) : bool := match a with CDcol => true | _ => false end.
+
+Definition key := (option (option str) * option (option str) * option (option str))%type.
+
+Definition ostr_eqb (a b : option str) : bool :=
+  match a, b with
+  | None, None => true
+  | Some x, Some y => str_eqb x y
+  | _, _ => false
+  end.
+Definition oostr_eqb (a b : option (option str)) : bool :=
+  match a, b with
+  | None, None => true
+  | Some x, Some y => ostr_eqb x y
+  | _, _ => false
+  end.
+Definition key_eqb (a b : key) : bool :=
+  oostr_eqb (fst (fst a)) (fst (fst b)) && oostr_eqb (snd (fst a)) (snd (fst b)) && oostr_eqb (snd a) (snd b).
+
+Definition cd_key (sa ba na : cdarg) (r : row) : key :=
+  (cd_proj sa (r_seqid r), cd_proj ba (r_biotype r), cd_proj na (r_name r)).
+
+Definition cd_match (sa ba na : cdarg) (r : row) : bool :=
+  str_cond (cd_constraint sa) (r_seqid r)
+  && str_cond (cd_constraint ba) (r_biotype r)
+  && str_cond (cd_constraint na) (r_name r).
+
+(** GROUP BY ... COUNT( * ): NULLs form one group *)
+Fixpoint bump (k : key) (acc : list (key * Z)) : list (key * Z) :=
+  match acc with
+  | [] => [(k, 1)]
+  | (k', n) :: t => if key_eqb k k' then (k', n + 1) :: t else (k', n) :: bump k t
+  end.
+Definition group_count (ks : list key) : list (key * Z) := fold_left (fun acc k => bump k acc) ks [].
+
+(** one block of result rows per table, not merged across tables; None when no column is True *)
+Definition count_distinct (tables : list Z) (db : list row) (sa ba na : cdarg) : option (list (key * Z)) :=
+  if is_col sa || is_col ba || is_col na then
+    Some (flat_map (fun t => group_count (map (cd_key sa ba na) (filter (cd_match sa ba na) (rows_of t db)))) tables)
+  else None.
 
 (** ---------- observation ---------- *)
 Definition vostr (o : option str) : val := match o with Some s => VS s | None => VN end.
